@@ -1,7 +1,9 @@
 // C03 table dumper (engine E-D): evaluates the direction functions of src/TravelDirections.hpp and the
-// direction-dependent index functions of src/DensitySubGrid.hpp on their whole finite domain and prints the
-// tables as a Coq file (coq/Cxx/C03_Gen.v).  Nothing here is computed by the harness itself except the
-// enumeration of the domain; every table entry is the value returned by the real function.
+// direction-dependent index functions of src/DensitySubGrid.hpp on their whole finite domain and prints one
+// line per evaluation ("<table> <arguments...> <returned value(s)>").  props/c03.py turns the lines into the Coq
+// file coq/Cxx/C03_Gen.v.  Nothing here is computed by the harness itself except the enumeration of the domain;
+// every table entry is the value returned by the real function.  The arguments are printed and flushed BEFORE the
+// call, so that when the real function aborts (cmac_error) the unfinished last line names the failing input.
 #include <cinttypes>
 #include <cmath>
 #include <cstdio>
@@ -61,54 +63,39 @@ static void name_offset(const std::string &n, int o[3]) {
   }
 }
 
-static const char *zs(long v, char *buf) {
-  if (v < 0)
-    sprintf(buf, "(%ld)", v);
-  else
-    sprintf(buf, "%ld", v);
-  return buf;
-}
+#define CALL(...)                                                                                                      \
+  {                                                                                                                    \
+    printf(__VA_ARGS__);                                                                                               \
+    fflush(stdout);                                                                                                    \
+  }
 
 int main() {
-  char b[8][32];
-  printf("(* GENERATED by harness/c03/dump_tables.cpp from src/TravelDirections.hpp and src/DensitySubGrid.hpp.\n"
-         "   Every entry is the value returned by the real function.  Do not edit; git-ignored. *)\n");
-  printf("From Coq Require Import ZArith List Bool.\nImport ListNotations.\nLocal Open Scope Z_scope.\n\n");
-  printf("Definition gen_ndir : Z := %ld.\n", (long)TRAVELDIRECTION_NUMBER);
-  printf("Definition gen_outside : Z := %lu.\n\n", (unsigned long)NEIGHBOUR_OUTSIDE);
+  printf("ndir %ld\n", (long)TRAVELDIRECTION_NUMBER);
+  printf("outside %lu\n", (unsigned long)NEIGHBOUR_OUTSIDE);
 
-  // enumerators: (value, offset read from the name)
-  printf("(* (enumerator value, offset spelled by the enumerator name: P=1 N=-1) *)\n");
-  printf("Definition gen_named : list (Z * (Z * Z * Z)) := [\n");
+  // enumerators: value from the enum, offset spelled by the enumerator name
   const size_t nn = sizeof(NAMED) / sizeof(NAMED[0]);
   for (size_t i = 0; i < nn; ++i) {
     int o[3];
     name_offset(NAMED[i].name, o);
-    printf("  (%s, (%s, %s, %s))%s  (* %s *)\n", zs(NAMED[i].value, b[0]), zs(o[0], b[1]), zs(o[1], b[2]), zs(o[2], b[3]),
-           i + 1 < nn ? ";" : " ", NAMED[i].name);
+    printf("named %ld %d %d %d %s\n", NAMED[i].value, o[0], o[1], o[2], NAMED[i].name);
   }
-  printf("].\n\n");
 
-  // output_to_input_direction on 0..26
-  printf("(* TravelDirections::output_to_input_direction(d) for d = 0..%d *)\n", TRAVELDIRECTION_NUMBER - 1);
-  printf("Definition gen_out_to_in : list Z := [");
-  for (int d = 0; d < TRAVELDIRECTION_NUMBER; ++d)
-    printf("%s%s", d ? "; " : "", zs((long)TravelDirections::output_to_input_direction(d), b[0]));
-  printf("].\n\n");
+  // TravelDirections::output_to_input_direction on 0..26
+  for (int d = 0; d < TRAVELDIRECTION_NUMBER; ++d) {
+    CALL("o2i %d ", d);
+    printf("%ld\n", (long)TravelDirections::output_to_input_direction(d));
+  }
 
-  // mask decoding on all 64 masks
-  printf("(* TravelDirections::get_output_direction(mask) for mask = 0..63 *)\n");
-  printf("Definition gen_mask : list Z := [");
-  for (int m = 0; m < 64; ++m)
-    printf("%s%s", m ? "; " : "", zs((long)TravelDirections::get_output_direction(m), b[0]));
-  printf("].\n\n");
+  // TravelDirections::get_output_direction(mask) on all 64 masks
+  for (int m = 0; m < 64; ++m) {
+    CALL("mask %d ", m);
+    printf("%ld\n", (long)TravelDirections::get_output_direction(m));
+  }
 
-  // DensitySubGrid::get_output_direction(three_index) on real subgrids
-  printf("(* DensitySubGrid::get_output_direction(three_index): (ncx, ncy, ncz, i, j, k, returned direction) *)\n");
-  printf("Definition gen_exit : list (Z * Z * Z * Z * Z * Z * Z) := [\n");
+  // DensitySubGrid::get_output_direction(three_index) on real subgrids, indices -n, -1, 0, n-1, n per axis
   {
     const int ncs[5][3] = {{1, 1, 1}, {2, 3, 4}, {4, 2, 1}, {3, 3, 3}, {1, 5, 2}};
-    bool first = true;
     for (int c = 0; c < 5; ++c) {
       const double box[6] = {0., 0., 0., 1., 1., 1.};
       DensitySubGrid g(box, CoordinateVector< int_fast32_t >(ncs[c][0], ncs[c][1], ncs[c][2]));
@@ -127,51 +114,38 @@ int main() {
       for (size_t i = 0; i < idx[0].size(); ++i)
         for (size_t j = 0; j < idx[1].size(); ++j)
           for (size_t k = 0; k < idx[2].size(); ++k) {
-            const long d =
-                g.get_output_direction(CoordinateVector< int_fast32_t >(idx[0][i], idx[1][j], idx[2][k]));
-            printf("%s(%d, %d, %d, %s, %s, %s, %s)", first ? "  " : ";\n  ", ncs[c][0], ncs[c][1], ncs[c][2],
-                   zs(idx[0][i], b[0]), zs(idx[1][j], b[1]), zs(idx[2][k], b[2]), zs(d, b[3]));
-            first = false;
+            CALL("exit %d %d %d %d %d %d ", ncs[c][0], ncs[c][1], ncs[c][2], idx[0][i], idx[1][j], idx[2][k]);
+            printf("%ld\n",
+                   (long)g.get_output_direction(CoordinateVector< int_fast32_t >(idx[0][i], idx[1][j], idx[2][k])));
           }
     }
   }
-  printf("\n].\n\n");
 
-  // compatibility: kind 0 = components -1,0,+1 ; kind 1 = smallest denormal / negative zero ; kind 2 = +-infinity / +0
-  printf("(* (kind, sign x, sign y, sign z, d, is_compatible_output_direction, is_compatible_input_direction);\n"
-         "   the direction vector has components sign*magnitude: kind 0 magnitude 1 and +0.0, kind 1 magnitude 4.9e-324\n"
-         "   and -0.0, kind 2 magnitude infinity and +0.0 *)\n");
-  printf("Definition gen_compat : list (Z * Z * Z * Z * Z * bool * bool) := [\n");
-  {
-    bool first = true;
-    for (int kind = 0; kind < 3; ++kind) {
-      const double mag = kind == 0 ? 1. : (kind == 1 ? std::numeric_limits< double >::denorm_min()
-                                                     : std::numeric_limits< double >::infinity());
-      const double zero = kind == 1 ? -0. : 0.;
-      for (int sx = -1; sx < 2; ++sx)
-        for (int sy = -1; sy < 2; ++sy)
-          for (int sz = -1; sz < 2; ++sz) {
-            const CoordinateVector<> v(sx ? sx * mag : zero, sy ? sy * mag : zero, sz ? sz * mag : zero);
-            for (int d = 0; d < TRAVELDIRECTION_NUMBER; ++d) {
-              const bool o = TravelDirections::is_compatible_output_direction(v, d);
-              const bool i = TravelDirections::is_compatible_input_direction(v, d);
-              printf("%s(%d, %s, %s, %s, %d, %s, %s)", first ? "  " : ";\n  ", kind, zs(sx, b[0]), zs(sy, b[1]),
-                     zs(sz, b[2]), d, o ? "true" : "false", i ? "true" : "false");
-              first = false;
-            }
+  // compatibility of a direction vector with an output / input direction.  The vector has components
+  // sign * magnitude:  kind 0: magnitude 1, zero = +0.0;  kind 1: magnitude 4.9e-324 (smallest denormal), zero = -0.0;
+  // kind 2: magnitude infinity, zero = +0.0
+  for (int kind = 0; kind < 3; ++kind) {
+    const double mag = kind == 0 ? 1.
+                                 : (kind == 1 ? std::numeric_limits< double >::denorm_min()
+                                              : std::numeric_limits< double >::infinity());
+    const double zero = kind == 1 ? -0. : 0.;
+    for (int sx = -1; sx < 2; ++sx)
+      for (int sy = -1; sy < 2; ++sy)
+        for (int sz = -1; sz < 2; ++sz) {
+          const CoordinateVector<> v(sx ? sx * mag : zero, sy ? sy * mag : zero, sz ? sz * mag : zero);
+          for (int d = 0; d < TRAVELDIRECTION_NUMBER; ++d) {
+            CALL("compat %d %d %d %d %d ", kind, sx, sy, sz, d);
+            const bool o = TravelDirections::is_compatible_output_direction(v, d);
+            const bool i = TravelDirections::is_compatible_input_direction(v, d);
+            printf("%d %d\n", o ? 1 : 0, i ? 1 : 0);
           }
-    }
+        }
   }
-  printf("\n].\n\n");
 
-  // entry: get_start_index and update_photon_position per input direction
-  printf("(* (n, d, (ix, iy, iz) three_index set by DensitySubGrid::get_start_index for a position in the middle cell\n"
-         "   ((n-1)/2 on every axis) of an n x n x n subgrid entered through input direction d,\n"
-         "   (rx, ry, rz) effect of update_photon_position on that position: 0 = set to the lower face coordinate 0,\n"
-         "   2 = set to the upper face coordinate n*cell_size, 1 = left unchanged, 9 = anything else) *)\n");
-  printf("Definition gen_entry : list (Z * Z * (Z * Z * Z) * (Z * Z * Z)) := [\n");
+  // entry: three_index set by get_start_index for a position in the middle cell ((n-1)/2 on every axis) of an
+  // n x n x n subgrid entered through input direction d, and the effect of update_photon_position on that position:
+  // 0 = set to the lower face coordinate 0, 2 = set to the upper face coordinate n*cell_size, 1 = unchanged, 9 = else
   {
-    bool first = true;
     const int ns[3] = {1, 3, 5};
     for (int q = 0; q < 3; ++q) {
       const int n = ns[q];
@@ -179,6 +153,7 @@ int main() {
       DensitySubGrid g(box, CoordinateVector< int_fast32_t >(n, n, n));
       const double mid = 0.5 * n;
       for (int d = 0; d < TRAVELDIRECTION_NUMBER; ++d) {
+        CALL("entry %d %d ", n, d);
         CoordinateVector< int_fast32_t > ti(-7, -7, -7);
         const CoordinateVector<> pos(mid, mid, mid);
         g.get_start_index(pos, d, ti);
@@ -189,12 +164,10 @@ int main() {
           const double up = g._number_of_cells[a] * g._cell_size[a];
           r[a] = (p2[a] == mid) ? 1 : (p2[a] == 0. ? 0 : (p2[a] == up ? 2 : 9));
         }
-        printf("%s(%d, %d, (%s, %s, %s), (%d, %d, %d))", first ? "  " : ";\n  ", n, d, zs((long)ti[0], b[0]),
-               zs((long)ti[1], b[1]), zs((long)ti[2], b[2]), r[0], r[1], r[2]);
-        first = false;
+        printf("%ld %ld %ld %d %d %d\n", (long)ti[0], (long)ti[1], (long)ti[2], r[0], r[1], r[2]);
       }
     }
   }
-  printf("\n].\n");
+  printf("end\n");
   return 0;
 }
